@@ -4,7 +4,7 @@
 // compared with Limits.rand_loop including the attempt-limit panic; (b) full optimisation runs of both
 // explorer families on the catchment model under limits: every boundary state (after the initial
 // randomisation and after every iteration) and every archive entry is projected and, implementation-side,
-// checked against the limit (the Search oracle).
+// checked against the limit (the Search oracle); (c) composed single-objective runs: see c03ckp.go.
 package main
 
 import (
@@ -110,6 +110,10 @@ func runC03(args []string) {
 			c03OnDataset(g, p, stats, &fails, 24, 80, 4)
 		}
 	}
+	// ---------- (c) composed single-objective runs (c03ckp.go; own random stream, after everything else so that
+	// the cases above stay as they are) ----------
+	ckpFails := 0
+	c03ckpAll(tier, append([]string{"ValidModel.csv"}, genNames...), stats, &ckpFails)
 }
 
 func c03OnDataset(ds string, p *prng, stats map[string]int, failsp *int, loopCases, iters, runs int) {
